@@ -202,3 +202,18 @@ M('c14-sync-early-exit-tail-on-wrong-side', 'C14', 'R10', S,
   _EARLY, "            if size - delimiter_len_1 < have_bytes + self._buffer_len - self._buffer_pos:\n", also=['C13'])
 M('c14-sync-early-exit-tail-of-consumed-only', 'C14', 'R10', S,          # margin only when the delimiter is going to be consumed
   _EARLY, "            if size < (\n                have_bytes + self._buffer_len - self._buffer_pos - (delimiter_len_1 if consume_delimiter else 0)\n            ):\n", also=['C13'])
+
+# ------------------------------------------------------------------ R11 minimum length of normalised source chunks (async; shared with C13 R9)
+# the delimiter search of _iter_delimited looks ahead ONE chunk (`buffer tail + chunk[:len(delimiter) - 1]`): every chunk of the
+# normalising iterator that is followed by another one must supply those bytes, i.e. be at least chunk_size - 1 long
+_FLUSH = "            if chunk_len >= chunk_size:\n                self._consumed += chunk_len\n"
+M('c14-async-normalized-short-leftover-flushed', 'C14', 'R11', A,          # seeded s5-c13-1
+  _FLUSH, "            if chunk_len >= chunk_size or (chunk_len and len(item) >= chunk_size):\n                self._consumed += chunk_len\n", also=['C13'])
+M('c14-async-normalized-flush-any-leftover', 'C14', 'R11', A,
+  _FLUSH, "            if chunk_len:\n                self._consumed += chunk_len\n", also=['C13'])
+M('c14-async-normalized-flush-at-half-chunk', 'C14', 'R11', A,
+  _FLUSH, "            if chunk_len >= chunk_size // 2:\n                self._consumed += chunk_len\n", also=['C13'])
+M('c14-async-normalized-flush-when-item-empty', 'C14', 'R11', A,          # "keep-alive" empty events flush what has been gathered
+  _FLUSH, "            if chunk_len >= chunk_size or not item:\n                self._consumed += chunk_len\n", also=['C13'])
+M('c14-async-lookahead-one-byte-short', 'C14', 'R11', A,
+  "fragment = self._buffer[offset:] + chunk[:delimiter_len_1]", "fragment = self._buffer[offset:] + chunk[: delimiter_len_1 - 1]", also=['C13'])
